@@ -97,7 +97,7 @@ pub fn is_harness_panic(msg: &str) -> bool {
 // ----------------------------------------------------------------------
 // Stats
 
-pub fn hash_of<T: Hash>(v: &T) -> u64 {
+pub fn hash_of<T: Hash + ?Sized>(v: &T) -> u64 {
     let mut h = std::collections::hash_map::DefaultHasher::new();
     v.hash(&mut h);
     h.finish()
@@ -585,7 +585,7 @@ impl Run {
             "wall_s": wall,
             "violations": self.failures.len(),
         });
-        if self.write_evidence {
+        if self.write_evidence && std::env::var("RSV_CHILD").is_err() {
             let dir = format!("{}/evidence", verif_dir());
             let _ = std::fs::create_dir_all(&dir);
             let path = format!("{dir}/{}.json", self.id);
@@ -667,6 +667,30 @@ where
             Err(p) => Err(p),
         }
     }
+}
+
+/// global budget so that parallel workers do not hold tens of GiB at once
+pub fn with_memory_budget<T>(bytes: usize, f: impl FnOnce() -> T) -> T {
+    use std::sync::{Condvar, Mutex};
+    static BUDGET: Mutex<usize> = Mutex::new(10 << 30);
+    static CV: Condvar = Condvar::new();
+    let want = bytes.min(10 << 30);
+    {
+        let mut g = BUDGET.lock().unwrap();
+        while *g < want {
+            g = CV.wait(g).unwrap();
+        }
+        *g -= want;
+    }
+    struct Give(usize);
+    impl Drop for Give {
+        fn drop(&mut self) {
+            *BUDGET.lock().unwrap() += self.0;
+            CV.notify_all();
+        }
+    }
+    let _give = Give(want);
+    f()
 }
 
 /// helper to box a strategy
